@@ -99,10 +99,38 @@ def negkey(item):
     return -item.key
 
 
-def mk_key(ex, kind):
+def slice_parts():
+    """all (none-mask, sign-class) instances of a slice obligation, encoded in one int"""
+    out = []
+    for mask in range(8):
+        for signs in range(8):
+            if any((mask >> i) & 1 and (signs >> i) & 1 for i in range(3)):
+                continue      # a None field has no sign class
+            out.append(mask | (signs << 3))
+    return out
+
+
+def part_name(p):
+    f = lambda i: "N" if (p >> i) & 1 else ("-" if (p >> (3 + i)) & 1 else "+")
+    return "part=%s%s%s" % (f(0), f(1), f(2))
+
+
+def mk_key(ex, kind, mask=None):
+    """mask: None -> each slice field is a symbolic Optional[int]; else a 3-bit number fixing which fields are None
+    (the obligation is split into 8 instances only to balance the process pool)"""
     if kind == "int":
         return ex.int("i")
-    start, stop, step = ex.opt_int("start"), ex.opt_int("stop"), ex.opt_int("step")
+    if mask is None:
+        start, stop, step = ex.opt_int("start"), ex.opt_int("stop"), ex.opt_int("step")
+    else:
+        signs = mask >> 3       # bits 3..5: sign class of start/stop/step (1: negative, 0: non-negative)
+        start = None if mask & 1 else ex.int("start")
+        stop = None if mask & 2 else ex.int("stop")
+        step = None if mask & 4 else ex.int("step")
+        if ex.sym:
+            for i, f in enumerate((start, stop, step)):
+                if f is not None:
+                    ex.assume(f < 0 if (signs >> i) & 1 else f >= 0)
     return MSlice(start, stop, step) if ex.sym else slice(start, stop, step)
 
 
@@ -191,7 +219,7 @@ def check_event(ex, ev, before, after_expected_from_replay, n, op):
     return before[:ci] + added + before[ci + len(removed):]
 
 
-def make_harness(op, n, m=0, use_validator=True):
+def make_harness(op, n, m=0, use_validator=True, mask=None):
     keykind = {"set_int": "int", "del_int": "int", "insert": "int", "pop": "int",
                "set_slice": "slice", "del_slice": "slice"}.get(op)
 
@@ -211,7 +239,7 @@ def make_harness(op, n, m=0, use_validator=True):
         ref = ListModel(items) if ex.sym else list(items)
         vars_before = sorted(vars(tl))
         before = list(tl)
-        key = mk_key(ex, keykind) if keykind else None
+        key = mk_key(ex, keykind, mask) if keykind else None
         k = None
         new = None
         if op == "imul":
@@ -328,8 +356,9 @@ def obligations(tier, build):
             if op == "del_slice" and n > NS:
                 continue
             sym = op in ("set_int", "del_int", "insert", "pop", "imul", "del_slice", "sort", "remove")
-            obs.append(Obligation(
-                "%s/n=%d" % (op, n), make_harness(op, n),
+            for mask in (slice_parts() if op == "del_slice" else [None]):
+              obs.append(Obligation(
+                "%s/n=%d%s" % (op, n, "" if mask is None else "/" + part_name(mask)), make_harness(op, n, mask=mask),
                 bounds={"list length n": n, "index / slice fields / factor": "unbounded Int (or None)" if sym else "n/a",
                         "*= factor": "<= %d when n > 0" % ListModel.IMUL_MAX if op == "imul" else "n/a"},
                 leverage="all integer arguments" if sym else "choice feasibility only (no integer argument)",
@@ -339,8 +368,9 @@ def obligations(tier, build):
         for m in range(M + 1):
             if n > NS:
                 continue
-            obs.append(Obligation(
-                "set_slice/n=%d/m=%d" % (n, m), make_harness("set_slice", n, m),
+            for mask in slice_parts():
+              obs.append(Obligation(
+                "set_slice/n=%d/m=%d/%s" % (n, m, part_name(mask)), make_harness("set_slice", n, m, mask=mask),
                 bounds={"list length n": n, "replacement length m": m, "start/stop/step": "unbounded Int or None",
                         "invalid item": "at any one position or nowhere"},
                 leverage="all slice fields", max_paths=60000, **common))
